@@ -730,6 +730,154 @@ let judge _id (c : cursor) (r : cursor) : bool * string =
       incr n
     done;
     (List.length (List.sort_uniq compare !phases) > 1 || kind = "rnd", kind)
+  | "brnd" ->
+    (* round 6: Bandit::RandomPolicy against rnd_policy / rnd_prob / rnd_sample / rnd_bounds *)
+    let a = next_int c in
+    let site = "Bandit::RandomPolicy" in
+    let ga = next_int r in let lo = next_nat r in let hi = next_nat r in
+    let obs = ref [] in
+    while not (at_end r) do
+      let draw = next_nat r in
+      let pol = next_qs_checked "random_dist" (site ^ "::getPolicy") r in
+      let probs = next_qs_checked "random_dist" (site ^ "::getActionProbability") r in
+      let act = next_nat r in
+      obs := (draw, pol, probs, act) :: !obs
+    done;
+    let obs = List.rev !obs in
+    let exact = a land (a - 1) = 0 in
+    (* O *)
+    List.iter (fun (_, pol, probs, act) ->
+        o_dist "random_dist" (site ^ "::getPolicy") exact pol a;
+        o_dist "random_dist" (site ^ "::getActionProbability") exact probs a;
+        o_agree "random_dist" site pol probs;
+        if List.exists (fun x -> not (q_lt q_zero x)) pol then
+          oracle_fail "random_dist" (site ^ "::getPolicy") ("an action has probability zero: " ^ str_qs pol);
+        o_support "random_sample_in_support" (site ^ "::sampleAction") pol act) obs;
+    (* C *)
+    let an = nat_of_int a in
+    if ga <> a then disagree "random_getA" (site ^ "::getA") (string_of_int ga);
+    let (mlo, mhi) = rnd_bounds an in
+    c_nat "rnd_bounds" (site ^ "::RandomPolicy") lo mlo;
+    c_nat "rnd_bounds" (site ^ "::RandomPolicy") hi mhi;
+    List.iter (fun (draw, pol, probs, act) ->
+        c_vec exact "rnd_policy" (site ^ "::getPolicy") pol (rnd_policy an);
+        c_vec exact "rnd_prob" (site ^ "::getActionProbability") probs (List.map (fun x -> rnd_prob an x) (range a));
+        c_nat "rnd_sample" (site ^ "::sampleAction") act (rnd_sample an draw)) obs;
+    (a > 1, kind)
+  | "mrnd" ->
+    (* round 6: MDP::RandomPolicy = BanditPolicyAdaptor<Bandit::RandomPolicy> *)
+    let s = next_int c in let a = next_int c in
+    let site = "MDP::RandomPolicy" in
+    let gs = next_int r in let ga = next_int r in
+    let lo = next_nat r in let hi = next_nat r in
+    let rows = next_int r in let cols = next_int r in
+    if rows < 0 || cols < 0 || rows > 1000 || cols > 1000 then
+      oracle_fail "mdp_random_rows_dist" (site ^ "::getPolicy") "absurd matrix shape";
+    let fin clause st = match next_x r with Fin x -> x | _ -> oracle_fail clause st "non-finite probability (nan/inf)" in
+    let table = List.init rows (fun _ -> List.init cols (fun _ -> fin "mdp_random_rows_dist" (site ^ "::getPolicy"))) in
+    let queries = List.init s (fun _ -> List.init a (fun _ -> fin "mdp_random_rows_dist" (site ^ "::getActionProbability"))) in
+    let samples = ref [] in
+    while not (at_end r) do
+      let st = next_int r in let draw = next_nat r in let act = next_nat r in
+      samples := (st, draw, act) :: !samples
+    done;
+    let samples = List.rev !samples in
+    let exact = a land (a - 1) = 0 in
+    (* O *)
+    if rows <> s then oracle_fail "mdp_random_rows_dist" (site ^ "::getPolicy") ("table has " ^ string_of_int rows ^ " rows for S = " ^ string_of_int s);
+    List.iter2 (fun row qs ->
+        o_dist "mdp_random_rows_dist" (site ^ "::getPolicy") exact row a;
+        o_dist "mdp_random_rows_dist" (site ^ "::getActionProbability") exact qs a;
+        o_agree "mdp_random_rows_dist" site row qs) table queries;
+    List.iter (fun (st, _, act) ->
+        o_support "mdp_random_rows_dist" (site ^ "::sampleAction") (List.nth table st) act) samples;
+    (* C *)
+    let sn = nat_of_int s and an = nat_of_int a in
+    if gs <> s || ga <> a then disagree "mdp_random_shape" (site ^ "::getS/getA") (string_of_int gs ^ " " ^ string_of_int ga);
+    let (mlo, mhi) = rnd_bounds an in
+    c_nat "rnd_bounds" (site ^ "::RandomPolicy") lo mlo;
+    c_nat "rnd_bounds" (site ^ "::RandomPolicy") hi mhi;
+    let mtable = mrnd_policy sn an in
+    if List.length mtable <> rows then disagree "mrnd_policy" (site ^ "::getPolicy") "row count";
+    List.iter2 (fun row mrow -> c_vec exact "mrnd_policy" (site ^ "::getPolicy") row mrow) table mtable;
+    List.iteri (fun st qs ->
+        c_vec exact "mrnd_prob" (site ^ "::getActionProbability") qs
+          (List.map (fun x -> mrnd_prob sn an (nat_of_int st) x) (range a))) queries;
+    List.iter (fun (st, draw, act) ->
+        c_nat "mrnd_sample" (site ^ "::sampleAction") act (mrnd_sample sn an (nat_of_int st) draw)) samples;
+    (a > 1 && s > 1, kind)
+  | "frnd" ->
+    (* round 6: Factored::Bandit::RandomPolicy and Factored::MDP::BanditPolicyAdaptor over it *)
+    let av = next_nats c in
+    let site = "Factored::Bandit::RandomPolicy" and msite = "Factored::MDP::BanditPolicyAdaptor" in
+    let ga = next_nats r in let los = next_nats r in let his = next_nats r in
+    let probs = next_qs_checked "factored_random_dist" (site ^ "::getActionProbability") r in
+    let mprobs = next_qs_checked "factored_random_dist" (msite ^ "::getActionProbability") r in
+    let obs = ref [] in
+    while not (at_end r) do
+      let d1 = next_nats r in let a1 = next_nats r in
+      let p1 = (match next_x r with Fin x -> x | _ -> oracle_fail "factored_random_sample" (site ^ "::getActionProbability") "non-finite") in
+      let d2 = next_nats r in let a2 = next_nats r in
+      let p2 = (match next_x r with Fin x -> x | _ -> oracle_fail "factored_random_sample" (msite ^ "::getActionProbability") "non-finite") in
+      obs := (d1, a1, p1, d2, a2, p2) :: !obs
+    done;
+    let obs = List.rev !obs in
+    let space = joint av in
+    let n = List.length space in
+    let exact = n land (n - 1) = 0 in
+    let in_space a = List.length a = List.length av && List.for_all2 (fun x m -> ioN x < ioN m) a av in
+    (* O *)
+    o_dist "factored_random_dist" (site ^ "::getActionProbability") exact probs n;
+    o_dist "factored_random_dist" (msite ^ "::getActionProbability") exact mprobs n;
+    List.iter (fun (_, a1, p1, _, a2, p2) ->
+        if not (in_space a1) then oracle_fail "factored_random_sample" (site ^ "::sampleAction") ("joint action outside the space: " ^ str_nats a1);
+        if not (q_lt q_zero p1) then oracle_fail "factored_random_sample" (site ^ "::sampleAction") "sampled action has probability zero";
+        if not (in_space a2) then oracle_fail "factored_random_sample" (msite ^ "::sampleAction") ("joint action outside the space: " ^ str_nats a2);
+        if not (q_lt q_zero p2) then oracle_fail "factored_random_sample" (msite ^ "::sampleAction") "sampled action has probability zero") obs;
+    (* C *)
+    if not (nat_list_eq ga av) then disagree "frnd_getA" (site ^ "::getA") (str_nats ga);
+    let bounds = frnd_bounds av in
+    if not (nat_list_eq los (List.map fst bounds) && nat_list_eq his (List.map snd bounds)) then
+      disagree "frnd_bounds" (site ^ "::RandomPolicy") ("impl lows " ^ str_nats los ^ " highs " ^ str_nats his);
+    let mp = List.map (fun a -> frnd_prob av a) space in
+    c_vec exact "frnd_prob" (site ^ "::getActionProbability") probs mp;
+    c_vec exact "frnd_prob" (msite ^ "::getActionProbability") mprobs mp;
+    List.iter (fun (d1, a1, p1, d2, a2, p2) ->
+        if not (nat_list_eq a1 (frnd_sample av d1)) then disagree "frnd_sample" (site ^ "::sampleAction") ("impl " ^ str_nats a1 ^ " draws " ^ str_nats d1);
+        if not (nat_list_eq a2 (frnd_sample av d2)) then disagree "frnd_sample" (msite ^ "::sampleAction") ("impl " ^ str_nats a2 ^ " draws " ^ str_nats d2);
+        c_vec exact "frnd_prob" (site ^ "::getActionProbability") [p1; p2] [frnd_prob av a1; frnd_prob av a2]) obs;
+    (n > 1, kind)
+  | "fsa" ->
+    (* round 6: Factored::Bandit::SingleActionPolicy *)
+    let av = next_nats c in
+    let nu = next_int c in
+    let ups = List.init nu (fun _ -> next_nats c) in
+    let site = "Factored::Bandit::SingleActionPolicy" in
+    let obs = ref [] in
+    while not (at_end r) do
+      let act = next_nats r in
+      let pa = (match next_x r with Fin x -> x | _ -> oracle_fail "single_action_dist" (site ^ "::getActionProbability") "non-finite") in
+      let probs = next_qs_checked "single_action_dist" (site ^ "::getActionProbability") r in
+      obs := (act, pa, probs) :: !obs
+    done;
+    let obs = List.rev !obs in
+    let space = joint av in
+    let n = List.length space in
+    (* O *)
+    List.iter (fun (act, pa, probs) ->
+        o_dist "single_action_dist" (site ^ "::getActionProbability") true probs n;
+        if List.exists (fun x -> not (q_eq x q_zero || q_eq x q_one)) probs then
+          oracle_fail "single_action_dist" (site ^ "::getActionProbability") ("not 0/1-valued: " ^ str_qs probs);
+        if not (q_eq pa q_one) then
+          oracle_fail "single_action_dist" (site ^ "::sampleAction") ("sampled action " ^ str_nats act ^ " has probability " ^ string_of_q pa)) obs;
+    (* C *)
+    if List.length obs <> nu + 1 then disagree "sa_update" (site ^ "::updateAction") "number of observations";
+    let cur = ref (sa_init av) in
+    List.iteri (fun i (act, _, probs) ->
+        if i > 0 then cur := sa_update !cur (List.nth ups (i - 1));
+        if not (nat_list_eq act (sa_sample !cur)) then disagree "sa_sample" (site ^ "::sampleAction") ("impl " ^ str_nats act ^ " model " ^ str_nats (sa_sample !cur));
+        c_vec true "sa_prob" (site ^ "::getActionProbability") probs (List.map (fun a -> sa_prob !cur a) space)) obs;
+    (n > 1 && nu > 0, kind)
   | k -> failwith ("unknown case kind " ^ k)
 
 let () = main_loop judge
